@@ -15,6 +15,13 @@ Definition popn (m : nat) (env : fenv) : fenv :=
 Section Base.
 Variable base : list frame.             (* the frames below the current activation: never touched *)
 
+(* pinned cells: VM cells that belong to no source variable (the end register L#n of an active `from` loop)
+   and must keep their value *)
+Definition pin_ok (env : fenv) (g : gstate) : N * value -> Prop := pin_ok_ (locals env) (frames g) (cells g).
+
+Section Pins.
+Context {pins : list (N * value)}.
+
 Record Rg (env : fenv) (s : rstate) (g : gstate) : Prop := {
   Rg_fr : Rfr (store s) (cells g) (locals env) (frames g);
   Rg_bij : bij (locals env) (frames g);
@@ -22,7 +29,8 @@ Record Rg (env : fenv) (s : rstate) (g : gstate) : Prop := {
   Rg_out : out g = rout s;
   Rg_base : skipn (length (locals env)) (frames g) = base;
   Rg_un : forall x, lookup_scopes x (locals env) <> None -> uname x;
-  Rg_ns : NS (locals env)
+  Rg_ns : NS (locals env);
+  Rg_pins : Forall (pin_ok env g) pins
 }.
 
 (* between statements: operand stack empty, special_scopes >= number of open blocks *)
@@ -60,6 +68,20 @@ Definition err_rel_s (f : failure) (e : err) : Prop :=
   | _ => err_rel f e
   end.
 
+(* FType 13 = a non-integer loop counter / bound of a `from` loop (excluded by the type checker): no claim *)
+Definition fail_post (f : failure) (P : Prop) : Prop :=
+  match f with FType 13%N => True | _ => P end.
+Lemma fail_post_intro : forall f (P : Prop), P -> fail_post f P.
+Proof.
+  intros f P H. unfold fail_post. destruct f; try exact H.
+  repeat match goal with |- match ?x with _ => _ end => destruct x end; first [exact H|exact Logic.I].
+Qed.
+Lemma fail_post_map : forall f (P Q : Prop), (P -> Q) -> fail_post f P -> fail_post f Q.
+Proof.
+  intros f P Q HPQ H. unfold fail_post in *. destruct f; try (exact (HPQ H)).
+  repeat match goal with |- match ?x with _ => _ end => destruct x end; first [exact (HPQ H)|exact Logic.I].
+Qed.
+
 Lemma err_rel_s_of : forall f e, err_rel f e -> err_rel_s f e.
 Proof. intros f e H. destruct f; cbn in *; auto; contradiction. Qed.
 
@@ -68,7 +90,7 @@ Proof. intros B env env' H E x. rewrite E. apply H. Qed.
 
 Lemma Rg_ext : forall env s g g' d lo hi, Rg env s g -> ext d lo hi g g' -> Rg env s g'.
 Proof.
-  intros env s g g' d lo hi [Hfr Hb Hc Ho Hbase Hun Hns] He.
+  intros env s g g' d lo hi [Hfr Hb Hc Ho Hbase Hun Hns Hpins] He.
   destruct (ext_cells _ _ _ _ _ He) as [extra Ec].
   pose proof (ext_labs _ _ _ _ _ He) as Hl. pose proof (ext_tail _ _ _ _ _ He) as Ht.
   pose proof (ext_find _ _ _ _ _ He) as Hf. pose proof (ext_out _ _ _ _ _ He) as Hout.
@@ -86,6 +108,7 @@ Proof.
   - destruct (locals env) as [|sc l]; [destruct (Rfr_ne _ _ _ _ Hfr); congruence|exact Hbase].
   - exact Hun.
   - exact Hns.
+  - unfold pin_ok in *. cbn [cells frames locals] in *. apply pins_mono_. eapply pins_top_; eassumption.
 Qed.
 
 Lemma Rg_ne : forall env s g, Rg env s g -> locals env <> [].
@@ -93,7 +116,7 @@ Proof. intros env s g H. exact (proj1 (Rfr_ne _ _ _ _ (Rg_fr _ _ _ H))). Qed.
 
 Lemma Rg_Renv : forall env s a g, Rg env s g -> Renv env s a g.
 Proof.
-  intros env s a g [Hfr _ Hc _ _ Hun _] x c v _ Hl Hg Hfo. rewrite Hc, app_nil_r in Hl.
+  intros env s a g [Hfr _ Hc _ _ Hun _ _] x c v _ Hl Hg Hfo. rewrite Hc, app_nil_r in Hl.
   assert (Hx : uname x) by (apply Hun; congruence).
   pose proof (Rfr_look _ _ _ _ Hfr x Hx) as H. rewrite Hl in H.
   destruct (find_in_function x (frames g)) as [c'|] eqn:E; [|contradiction]. cbn [orel] in H.
@@ -103,7 +126,7 @@ Qed.
 
 Lemma Rg_var_ok : forall env s g x, Rg env s g -> uname x -> lookup_scopes x (locals env) <> None -> var_ok env s x.
 Proof.
-  intros env s g x [Hfr _ Hc _ _ _ _] Hx Hb. split; [now apply uname_src|].
+  intros env s g x [Hfr _ Hc _ _ _ _ _] Hx Hb. split; [now apply uname_src|].
   pose proof (Rfr_look _ _ _ _ Hfr x Hx) as H.
   destruct (lookup_scopes x (locals env)) as [c|] eqn:E; [|congruence].
   destruct (find_in_function x (frames g)) as [c'|]; [|contradiction]. destruct H as (v & H1 & Hf & _).
@@ -116,7 +139,7 @@ Lemma Rg_lookup : forall env s g x, Rg env s g -> uname x -> lookup_scopes x (lo
                  pairs (locals env) (frames g) c c' /\
                  sget s c = Some v /\ first_order v /\ cell_get g c' = Some (inj v).
 Proof.
-  intros env s g x [Hfr _ _ _ _ _ _] Hx Hb.
+  intros env s g x [Hfr _ _ _ _ _ _ _] Hx Hb.
   pose proof (Rfr_look _ _ _ _ Hfr x Hx) as H.
   destruct (lookup_scopes x (locals env)) as [c|] eqn:E; [|congruence].
   destruct (find_in_function x (frames g)) as [c'|] eqn:E'; [|contradiction]. destruct H as (v & H1 & Hf & H2).
@@ -132,7 +155,7 @@ Lemma store_rel : forall env s g x v env' s', Rg env s g -> uname x -> first_ord
              (forall y, lookup_scopes y (locals env') <> None <-> (y = x \/ lookup_scopes y (locals env) <> None)) /\
              tl (frames g') = tl (frames g).
 Proof.
-  intros [l cap cu] [st ro] [cs fs o tr] x v env' s' [Hfr Hb Hc Ho Hbase Hun Hns] Hx Hfo Ha.
+  intros [l cap cu] [st ro] [cs fs o tr] x v env' s' [Hfr Hb Hc Ho Hbase Hun Hns Hpins] Hx Hfo Ha.
   cbn [locals captured store rout cells frames out] in *.
   pose proof (Rfr_look _ _ _ _ Hfr x Hx) as Hl. unfold assign in Ha. unfold store_var.
   cbn [locals frames] in *.
@@ -145,7 +168,8 @@ Proof.
     split; [|split; [apply same_tl_refl; cbn [locals]; destruct l; [discriminate|discriminate]|split; [|reflexivity]]].
     2:{ intros y. cbn [locals]. split; [auto|]. intros [->|H]; [congruence|exact H]. }
     constructor; cbn [sset cell_set store cells frames out rout locals captured]; try assumption.
-    apply Rfr_update; try assumption. intros cy cy' Hq. exact (Hb _ _ _ _ Hq Hp).
+    + apply Rfr_update; try assumption. intros cy cy' Hq. exact (Hb _ _ _ _ Hq Hp).
+    + unfold pin_ok in *. cbn [cells frames locals cell_set] in *. eapply pins_update_; eassumption.
   - destruct l as [|sc l]; [destruct (Rfr_ne _ _ _ _ Hfr); congruence|].
     destruct fs as [|f fs]; [cbn in Hfr; contradiction|].
     unfold declare, alloc in Ha. cbn [locals store rout captured cur] in Ha. inversion Ha; subst env' s'.
@@ -157,6 +181,7 @@ Proof.
       * intros y Hy. cbn [lookup_scopes] in Hy. destruct (list_eq_dec N.eq_dec y x) as [->|Hne]; [exact Hx|].
         rewrite assoc_set_other in Hy by exact Hne. apply Hun. exact Hy.
       * apply NS_declare; assumption.
+      * unfold pin_ok in *. cbn [cells frames locals] in *. apply pins_declare_. exact Hpins.
     + split; [reflexivity|discriminate].
     + intros y. cbn [lookup_scopes]. destruct (list_eq_dec N.eq_dec y x) as [->|Hne].
       * rewrite assoc_set_same. split; [auto|discriminate].
@@ -168,21 +193,23 @@ Qed.
 Lemma update_rel : forall env s g c c' v, Rg env s g -> pairs (locals env) (frames g) c c' -> first_order v ->
   Rg env (sset s c v) (cell_set g c' (inj v)).
 Proof.
-  intros [l cap cu] [st ro] [cs fs o tr] c c' v [Hfr Hb Hc Ho Hbase Hun Hns] Hp Hfo.
+  intros [l cap cu] [st ro] [cs fs o tr] c c' v [Hfr Hb Hc Ho Hbase Hun Hns Hpins] Hp Hfo.
   cbn [locals captured store rout cells frames out] in *.
   destruct (cellrel_valid _ _ _ _ (pairs_cellrel _ _ _ _ _ _ Hfr Hp)) as [V1 V2].
   constructor; cbn [sset cell_set store cells frames out rout locals captured]; try assumption.
-  apply Rfr_update; try assumption. intros cy cy' Hq. exact (Hb _ _ _ _ Hq Hp).
+  - apply Rfr_update; try assumption. intros cy cy' Hq. exact (Hb _ _ _ _ Hq Hp).
+  - unfold pin_ok in *. cbn [cells frames locals cell_set] in *. eapply pins_update_; eassumption.
 Qed.
 
 (* ---------------------------------------------------------------- blocks: push / pop *)
 Lemma push_rel : forall env s g lb, Rg env s g -> special lb = true -> Rg (push_scope env) s (push_frame g lb).
 Proof.
-  intros [l cap cu] [st ro] [cs fs o tr] lb [Hfr Hb Hc Ho Hbase Hun Hns] Hs.
+  intros [l cap cu] [st ro] [cs fs o tr] lb [Hfr Hb Hc Ho Hbase Hun Hns Hpins] Hs.
   constructor; cbn [push_scope push_frame with_frames locals captured store rout cells frames out] in *; try assumption.
   - apply Rfr_push; assumption.
   - apply bij_push; assumption.
   - apply NS_push; assumption.
+  - unfold pin_ok in *. cbn [cells frames locals] in *. apply pins_push_; assumption.
 Qed.
 
 Lemma popn_rel : forall m env s g, Rg env s g -> m < length (locals env) ->
@@ -191,7 +218,7 @@ Lemma popn_rel : forall m env s g, Rg env s g -> m < length (locals env) ->
 Proof.
   induction m as [|m IH]; intros env s g HR Hm.
   - exists g. split; [reflexivity|]. split; [|auto]. destruct env, HR. constructor; assumption.
-  - destruct env as [l cap cu], s as [st ro], g as [cs fs o tr]. destruct HR as [Hfr Hb Hc Ho Hbase Hun Hns].
+  - destruct env as [l cap cu], s as [st ro], g as [cs fs o tr]. destruct HR as [Hfr Hb Hc Ho Hbase Hun Hns Hpins].
     cbn [locals captured store rout cells frames out] in *.
     destruct l as [|sc l]; [cbn in Hm; lia|]. destruct l as [|sc' l]; [cbn in Hm; lia|].
     destruct fs as [|f fs]; [cbn in Hfr; contradiction|].
@@ -203,18 +230,23 @@ Proof.
       * eapply bij_pop; exact Hb.
       * intros y Hy. apply Hun. cbn [lookup_scopes] in Hy |- *. destruct (assoc y sc); [discriminate|exact Hy].
       * exact (proj2 Hns).
+      * unfold pin_ok in *. cbn [cells frames locals] in *. eapply pins_pop_; exact Hpins.
     + cbn [locals length] in *. lia.
     + exists g'. split; [exact E|]. split; [exact HR'|]. auto.
 Qed.
 
 Lemma Rg_trc : forall env s g name a i, Rg env s g -> Rg env s (trc name a g i).
-Proof. intros env s g name a i [A B C D E F G]. constructor; assumption. Qed.
+Proof. intros env s g name a i [A B C D E F G H]. constructor; assumption. Qed.
 
 Lemma print_rel : forall env s g l, Rg env s g -> Rg env (sprint s l) (emit_line g l).
 Proof.
-  intros env s g l [A B C D E F G]. constructor; cbn [sprint emit_line store cells frames out rout]; try assumption.
+  intros env s g l [A B C D E F G H]. constructor; cbn [sprint emit_line store cells frames out rout]; try assumption.
   now rewrite D.
 Qed.
+
+End Pins.
+Arguments Rg : clear implicits.
+Arguments Rst : clear implicits.
 
 Lemma show_inj : forall v, first_order v -> exists l, rshow v = Some l /\ show (inj v) = Some l.
 Proof. intros [z|[|]|t| |p b e] H; cbn in *; try contradiction; eexists; split; reflexivity. Qed.
@@ -359,24 +391,24 @@ Section Sim.
   Qed.
 
   (* ---------------------------------------------------------------- the statement carried by the induction *)
-  Definition post (sl : option nat) (bt ct fin : nat) (B' : list str) (env : fenv) (fs0 : list frame)
+  Definition post (pins : list (N * value)) (sl : option nat) (bt ct fin : nat) (B' : list str) (env : fenv) (fs0 : list frame)
              (a : act) (g : gstate) (r : sres_) : Prop :=
     match r with
     | SOk sig env' s' =>
       same_tl env env' /\
       match sig with
       | SigNormal => bound_in B' env' /\
-          exists a' g', xrun name code a g a' g' /\ a_ip a' = fin /\ Rst env' s' a' g' /\ act_same a a' /\
+          exists a' g', xrun name code a g a' g' /\ a_ip a' = fin /\ Rst pins env' s' a' g' /\ act_same a a' /\
                         tl (frames g') = tl fs0
       | SigBreak => exists m a' g', sl = Some m /\
-          xrun name code a g a' g' /\ a_ip a' = bt /\ Rst (popn m env') s' a' g' /\ act_same a a' /\
+          xrun name code a g a' g' /\ a_ip a' = bt /\ Rst pins (popn m env') s' a' g' /\ act_same a a' /\
           frames g' = skipn m fs0
       | SigContinue => exists m a' g', sl = Some m /\
-          xrun name code a g a' g' /\ a_ip a' = ct /\ Rst (popn (m - 1) env') s' a' g' /\ act_same a a' /\
+          xrun name code a g a' g' /\ a_ip a' = ct /\ Rst pins (popn (m - 1) env') s' a' g' /\ act_same a a' /\
           tl (frames g') = skipn m fs0
       | SigReturn _ => False
       end
-    | SFailed f s' => exists e g', xfail name code a g e g' /\ err_rel_s f e /\ out g' = rout s'
+    | SFailed f s' => fail_post f (exists e g', xfail name code a g e g' /\ err_rel_s f e /\ out g' = rout s')
     | SFuel => True
     end.
 
@@ -387,39 +419,39 @@ Section Sim.
                              m + hi <= length code.
 
   Definition stmt_spec (st : stmt) : Prop :=
-    forall il sl bt ct fuel k a g env s B,
+    forall pins lr il sl bt ct fuel k a g env s B,
       ok_stmt il B st = true -> bound_in B env ->
-      items_at bt ct k (sitems c sl st) -> k + length (sitems c sl st) < length code ->
-      lc_ok il sl bt ct env (k + length (sitems c sl st)) ->
-      a_ip a = k -> Rst env s a g ->
-      post sl bt ct (k + length (sitems c sl st)) (after B st) env (frames g) a g (Eval.exec fuel env st s).
+      items_at bt ct k (sitems c lr sl st) -> k + length (sitems c lr sl st) < length code ->
+      lc_ok il sl bt ct env (k + length (sitems c lr sl st)) ->
+      a_ip a = k -> Rst pins env s a g ->
+      post pins sl bt ct (k + length (sitems c lr sl st)) (after B st) env (frames g) a g (Eval.exec fuel env st s).
 
   Fixpoint after_l (B : list str) (l : list stmt) : list str :=
     match l with [] => B | st :: l => after_l (after B st) l end.
 
   Definition block_spec (l : list stmt) : Prop :=
-    forall il sl bt ct fuel k a g env s B,
+    forall pins lr il sl bt ct fuel k a g env s B,
       ok_block il B l = true -> bound_in B env ->
-      items_at bt ct k (bitems c sl l) -> k + length (bitems c sl l) < length code ->
-      lc_ok il sl bt ct env (k + length (bitems c sl l)) ->
-      a_ip a = k -> Rst env s a g ->
-      post sl bt ct (k + length (bitems c sl l)) (after_l B l) env (frames g) a g (exec_block fuel env l s).
+      items_at bt ct k (bitems c lr sl l) -> k + length (bitems c lr sl l) < length code ->
+      lc_ok il sl bt ct env (k + length (bitems c lr sl l)) ->
+      a_ip a = k -> Rst pins env s a g ->
+      post pins sl bt ct (k + length (bitems c lr sl l)) (after_l B l) env (frames g) a g (exec_block fuel env l s).
 
   (* ---------------------------------------------------------------- expressions (ExprSim.sim_pure) *)
-  Lemma expr_run : forall e d fuel k a g env s B,
+  Lemma expr_run : forall pins e d fuel k a g env s B,
     ok_expr B e = true -> bound_in B env -> d <= S c ->
     code_at code k (pcode d e) -> k + length (pcode d e) < length code ->
-    a_ip a = k -> a_ops a = [] -> Rg env s g ->
+    a_ip a = k -> a_ops a = [] -> Rg pins env s g ->
     match eval fuel env e s with
     | EVal v s' => s' = s /\ first_order v /\
-                   exists g', xrun name code a g (upd a (k + length (pcode d e)) [inj v]) g' /\ Rg env s g' /\
+                   exists g', xrun name code a g (upd a (k + length (pcode d e)) [inj v]) g' /\ Rg pins env s g' /\
                               tl (frames g') = tl (frames g)
     | EFail f s' => s' = s /\ exists e0 g', xfail name code a g e0 g' /\ err_rel f e0 /\ out g' = rout s
     | EFuel => True
     | ENoVal _ => False
     end.
   Proof.
-    intros e d fuel k a g env s B Hok Hb Hd Hc Hend Hip Hops HR.
+    intros pins e d fuel k a g env s B Hok Hb Hd Hc Hend Hip Hops HR.
     apply ok_expr_parts in Hok as (Hp & Hl & Hu).
     assert (Hv : forall x, In x (used_e e) -> var_ok env s x).
     { intros x Hx. destruct (Hu x Hx) as [Hs Hin]. eapply Rg_var_ok; [exact HR|exact Hs|apply Hb; exact Hin]. }
@@ -437,10 +469,10 @@ Section Sim.
   Qed.
 
   (* the failing-expression case of every statement *)
-  Lemma post_expr_fail : forall sl bt ct fin B' env fs0 a g f s e0 g',
+  Lemma post_expr_fail : forall pins sl bt ct fin B' env fs0 a g f s e0 g',
     xfail name code a g e0 g' -> err_rel f e0 -> out g' = rout s ->
-    post sl bt ct fin B' env fs0 a g (SFailed f s).
-  Proof. intros. cbn [post]. exists e0, g'. split; [assumption|]. split; [now apply err_rel_s_of|assumption]. Qed.
+    post pins sl bt ct fin B' env fs0 a g (SFailed f s).
+  Proof. intros. cbn [post]. apply fail_post_intro. exists e0, g'. split; [assumption|]. split; [now apply err_rel_s_of|assumption]. Qed.
 
   Lemma small_code : forall n, n <= length code -> small n.
   Proof. intros n H. eapply small_le; [|exact Hsmall]. lia. Qed.
@@ -483,19 +515,19 @@ Section Sim.
   Proof. intros off a g v H Hn. unfold exec_d. rewrite H. destruct v; try reflexivity. destruct (Hn b eq_refl). Qed.
 
   (* ================================================================ Stage 1: straight-line statements *)
-  Lemma Rst_upd : forall env s a g ip, Rg env s g -> length (locals env) <= S (a_ss a) -> Rst env s (upd a ip []) g.
-  Proof. intros env s a g ip HG Hss. split; [exact HG|]. split; [reflexivity|exact Hss]. Qed.
+  Lemma Rst_upd : forall pins env s a g ip, Rg pins env s g -> length (locals env) <= S (a_ss a) -> Rst pins env s (upd a ip []) g.
+  Proof. intros pins env s a g ip HG Hss. split; [exact HG|]. split; [reflexivity|exact Hss]. Qed.
 
   Lemma assign_correct : forall x e, stmt_spec (SAssign x e).
   Proof.
-    intros x e il sl bt ct fuel k a g env s B Hok Hb Hit Hend Hlc Hip HR.
+    intros x e pins lr il sl bt ct fuel k a g env s B Hok Hb Hit Hend Hlc Hip HR.
     destruct fuel as [|fuel]; [exact Logic.I|].
     cbn [ok_stmt] in Hok. apply Bool.andb_true_iff in Hok as [Hx Hoe]. apply src_nameb_ok in Hx.
     cbn [sitems] in *. rewrite app_length, map_length in *. cbn [length] in *.
     apply items_at_app in Hit as [Hce Hi]. apply items_at_CI in Hce. rewrite map_length in Hi.
     apply items_at_cons in Hi as [Hi _]. cbn [item_instr] in Hi.
     destruct HR as (HG & Hops & Hss).
-    pose proof (expr_run e c fuel k a g env s B Hoe Hb ltac:(lia) Hce ltac:(lia) Hip Hops HG) as He.
+    pose proof (expr_run pins e c fuel k a g env s B Hoe Hb ltac:(lia) Hce ltac:(lia) Hip Hops HG) as He.
     rewrite exec_SAssign.
     destruct (eval fuel env e s) as [v s1|s1|f s1|]; [|contradiction| |exact Logic.I].
     2:{ destruct He as (-> & e0 & g' & Hf & Hr & Ho). eapply post_expr_fail; eassumption. }
@@ -519,14 +551,14 @@ Section Sim.
 
   Lemma print_correct : forall e, stmt_spec (SPrint e).
   Proof.
-    intros e il sl bt ct fuel k a g env s B Hok Hb Hit Hend Hlc Hip HR.
+    intros e pins lr il sl bt ct fuel k a g env s B Hok Hb Hit Hend Hlc Hip HR.
     destruct fuel as [|fuel]; [exact Logic.I|].
     cbn [ok_stmt] in Hok. rename Hok into Hoe.
     cbn [sitems] in *. rewrite app_length, map_length in *. cbn [length] in *.
     apply items_at_app in Hit as [Hce Hi]. apply items_at_CI in Hce. rewrite map_length in Hi.
     apply items_at_cons in Hi as [Hi1 Hi]. apply items_at_cons in Hi as [Hi2 _]. cbn [item_instr] in Hi1, Hi2.
     destruct HR as (HG & Hops & Hss).
-    pose proof (expr_run e c fuel k a g env s B Hoe Hb ltac:(lia) Hce ltac:(lia) Hip Hops HG) as He.
+    pose proof (expr_run pins e c fuel k a g env s B Hoe Hb ltac:(lia) Hce ltac:(lia) Hip Hops HG) as He.
     rewrite exec_SPrint.
     destruct (eval fuel env e s) as [v s1|s1|f s1|]; [|contradiction| |exact Logic.I].
     2:{ destruct He as (-> & e0 & g' & Hf & Hr & Ho). eapply post_expr_fail; eassumption. }
@@ -551,14 +583,14 @@ Section Sim.
 
   Lemma expr_stmt_correct : forall e, stmt_spec (SExpr e).
   Proof.
-    intros e il sl bt ct fuel k a g env s B Hok Hb Hit Hend Hlc Hip HR.
+    intros e pins lr il sl bt ct fuel k a g env s B Hok Hb Hit Hend Hlc Hip HR.
     destruct fuel as [|fuel]; [exact Logic.I|].
     cbn [ok_stmt] in Hok. rename Hok into Hoe.
     cbn [sitems] in *. rewrite app_length, map_length in *. cbn [length] in *.
     apply items_at_app in Hit as [Hce Hi]. apply items_at_CI in Hce. rewrite map_length in Hi.
     apply items_at_cons in Hi as [Hi1 _]. cbn [item_instr] in Hi1.
     destruct HR as (HG & Hops & Hss).
-    pose proof (expr_run e c fuel k a g env s B Hoe Hb ltac:(lia) Hce ltac:(lia) Hip Hops HG) as He.
+    pose proof (expr_run pins e c fuel k a g env s B Hoe Hb ltac:(lia) Hce ltac:(lia) Hip Hops HG) as He.
     rewrite exec_SExpr.
     destruct (eval fuel env e s) as [v s1|s1|f s1|]; [|contradiction| |exact Logic.I].
     2:{ destruct He as (-> & e0 & g' & Hf & Hr & Ho). eapply post_expr_fail; eassumption. }
@@ -578,14 +610,14 @@ Section Sim.
 
   Lemma assert_correct : forall e sp, stmt_spec (SAssert e sp).
   Proof.
-    intros e sp il sl bt ct fuel k a g env s B Hok Hb Hit Hend Hlc Hip HR.
+    intros e sp pins lr il sl bt ct fuel k a g env s B Hok Hb Hit Hend Hlc Hip HR.
     destruct fuel as [|fuel]; [exact Logic.I|].
     cbn [ok_stmt] in Hok. rename Hok into Hoe.
     cbn [sitems] in *. rewrite app_length, map_length in *. cbn [length] in *.
     apply items_at_app in Hit as [Hce Hi]. apply items_at_CI in Hce. rewrite map_length in Hi.
     apply items_at_cons in Hi as [Hi1 _]. cbn [item_instr] in Hi1.
     destruct HR as (HG & Hops & Hss).
-    pose proof (expr_run e c fuel k a g env s B Hoe Hb ltac:(lia) Hce ltac:(lia) Hip Hops HG) as He.
+    pose proof (expr_run pins e c fuel k a g env s B Hoe Hb ltac:(lia) Hce ltac:(lia) Hip Hops HG) as He.
     rewrite exec_SAssert.
     destruct (eval fuel env e s) as [v s1|s1|f s1|]; [|contradiction| |exact Logic.I].
     2:{ destruct He as (-> & e0 & g' & Hf & Hr & Ho). eapply post_expr_fail; eassumption. }
@@ -595,8 +627,8 @@ Section Sim.
     set (i1 := mkI OP_ASSERT [sp]) in *.
     pose proof (exec_assert sp a1 (trc name a1 g1 i1) (inj v) eq_refl) as Hx.
     assert (Hfail : forall f e0, exec_d (DAssert (Some sp)) a1 (trc name a1 g1 i1) = SFail e0 -> err_rel_s f e0 ->
-                                 post sl bt ct (k + (length (pcode c e) + 1)) B env (frames g) a g (SFailed f s)).
-    { intros f e0 Hex Hrel. cbn [post]. exists e0, (trc name a1 g1 i1). split; [|split; [exact Hrel|exact (Rg_out _ _ _ HG1)]].
+                                 post pins sl bt ct (k + (length (pcode c e) + 1)) B env (frames g) a g (SFailed f s)).
+    { intros f e0 Hex Hrel. cbn [post]. apply fail_post_intro. exists e0, (trc name a1 g1 i1). split; [|split; [exact Hrel|exact (Rg_out _ _ _ HG1)]].
       eapply xrun_fail; [exact R1|]. eapply xstep_fail; [reflexivity|exact Hi1|apply dec_assert|exact Hex]. }
     destruct v as [z|[|]|t| |p bd ev]; cbn [inj val_equals] in Hx; try contradiction.
     - eapply Hfail; [exact Hx|]. cbn. auto.
@@ -615,7 +647,7 @@ Section Sim.
 
   Lemma opassign_correct : forall x o e, stmt_spec (SOpAssign x o e).
   Proof.
-    intros x o e il sl bt ct fuel k a g env s B Hok Hb Hit Hend Hlc Hip HR.
+    intros x o e pins lr il sl bt ct fuel k a g env s B Hok Hb Hit Hend Hlc Hip HR.
     destruct fuel as [|fuel]; [exact Logic.I|].
     cbn [ok_stmt] in Hok. rewrite !Bool.andb_true_iff in Hok. destruct Hok as [[[Ho Hx] HxB] Hoe].
     apply src_nameb_ok in Hx. apply mem_str_In in HxB.
@@ -623,7 +655,7 @@ Section Sim.
     apply items_at_app in Hit as [Hce Hi]. apply items_at_CI in Hce. rewrite map_length in Hi.
     apply items_at_cons in Hi as [Hi1 Hi]. apply items_at_cons in Hi as [Hi2 _]. cbn [item_instr] in Hi1, Hi2.
     destruct HR as (HG & Hops & Hss).
-    pose proof (expr_run e (S c) fuel k a g env s B Hoe Hb ltac:(lia) Hce ltac:(lia) Hip Hops HG) as He.
+    pose proof (expr_run pins e (S c) fuel k a g env s B Hoe Hb ltac:(lia) Hce ltac:(lia) Hip Hops HG) as He.
     rewrite exec_SOpAssign.
     destruct (eval fuel env e s) as [v s1|s1|f s1|]; [|contradiction| |exact Logic.I].
     2:{ destruct He as (-> & e0 & g' & Hf & Hr & Ho'). eapply post_expr_fail; eassumption. }
@@ -632,7 +664,7 @@ Section Sim.
     set (a1 := upd a k1 [inj v]) in *.
     set (i1 := mkI OP_BIN_OP_ASSIGN [binop_sym o ++ [61%N]; x]) in *.
     set (g1t := trc name a1 g1 i1).
-    assert (HG1t : Rg env s g1t) by (apply Rg_trc; exact HG1).
+    assert (HG1t : Rg pins env s g1t) by (apply Rg_trc; exact HG1).
     destruct (Rg_lookup env s g1t x HG1t Hx (proj2 (Hb x) HxB)) as (cx & cx' & cur_ & E1 & E2 & Hp & E3 & Hfc & E4).
     rewrite (Rg_cap _ _ _ HG), app_nil_r, E1, E3.
     assert (Hlv : lookup_var a1 g1t x = Some cx') by (unfold lookup_var; now rewrite E2).
@@ -658,7 +690,7 @@ Section Sim.
       + repeat split.
       + exact Hf1.
     - destruct Hag as (-> & e0 & Hbo & Hrel). rewrite Hbo in Hx1.
-      cbn [post]. exists e0, g1t. split; [|split; [now apply err_rel_s_of|exact (Rg_out _ _ _ HG1)]].
+      cbn [post]. apply fail_post_intro. exists e0, g1t. split; [|split; [now apply err_rel_s_of|exact (Rg_out _ _ _ HG1)]].
       eapply xrun_fail; [exact R1|]. eapply xstep_fail; [reflexivity|exact Hi1|apply dec_bin_op_assign|exact Hx1].
   Qed.
 
@@ -666,10 +698,10 @@ Section Sim.
   Lemma exec_jmp_pop : forall off n a g, exec_d (DJmpPop off n) a g = SGotoPop off n a g.
   Proof. reflexivity. Qed.
 
-  Lemma Rst_popn : forall m env s a g' t, Rg (popn m env) s g' -> a_ops a = [] -> length (locals env) <= S (a_ss a) ->
-    Rst (popn m env) s (set_ip a t) g'.
+  Lemma Rst_popn : forall pins m env s a g' t, Rg pins (popn m env) s g' -> a_ops a = [] -> length (locals env) <= S (a_ss a) ->
+    Rst pins (popn m env) s (set_ip a t) g'.
   Proof.
-    intros m env s a g' t HG Hops Hss. split; [exact HG|]. split; [exact Hops|].
+    intros pins m env s a g' t HG Hops Hss. split; [exact HG|]. split; [exact Hops|].
     cbn [popn locals set_ip a_ss]. rewrite skipn_length. lia.
   Qed.
 
@@ -681,7 +713,7 @@ Section Sim.
 
   Lemma break_correct : stmt_spec SBreak.
   Proof.
-    intros il sl bt ct fuel k a g env s B Hok Hb Hit Hend Hlc Hip HR.
+    intros pins lr il sl bt ct fuel k a g env s B Hok Hb Hit Hend Hlc Hip HR.
     destruct fuel as [|fuel]; [exact Logic.I|].
     cbn [ok_stmt] in Hok. destruct Hlc as [Hsl Hlc]. specialize (Hsl Hok).
     destruct sl as [m|]; [|congruence]. destruct (Hlc m eq_refl) as (Hm1 & Hm2 & Hct & Hbt & Hlen & Hmc).
@@ -702,7 +734,7 @@ Section Sim.
 
   Lemma continue_correct : stmt_spec SContinue.
   Proof.
-    intros il sl bt ct fuel k a g env s B Hok Hb Hit Hend Hlc Hip HR.
+    intros pins lr il sl bt ct fuel k a g env s B Hok Hb Hit Hend Hlc Hip HR.
     destruct fuel as [|fuel]; [exact Logic.I|].
     cbn [ok_stmt] in Hok. destruct Hlc as [Hsl Hlc]. specialize (Hsl Hok).
     destruct sl as [m|]; [|congruence]. destruct (Hlc m eq_refl) as (Hm1 & Hm2 & Hct & Hbt & Hlen & Hmc).
@@ -722,11 +754,11 @@ Section Sim.
   Qed.
 
   (* ================================================================ sequencing *)
-  Lemma post_seq : forall sl bt ct fin B' env fs0 a g env1 a1 g1 r,
+  Lemma post_seq : forall pins sl bt ct fin B' env fs0 a g env1 a1 g1 r,
     xrun name code a g a1 g1 -> same_tl env env1 -> act_same a a1 ->
-    post sl bt ct fin B' env1 fs0 a1 g1 r -> post sl bt ct fin B' env fs0 a g r.
+    post pins sl bt ct fin B' env1 fs0 a1 g1 r -> post pins sl bt ct fin B' env fs0 a g r.
   Proof.
-    intros sl bt ct fin B' env fs0 a g env1 a1 g1 r Hrun Hd Hact H.
+    intros pins sl bt ct fin B' env fs0 a g env1 a1 g1 r Hrun Hd Hact H.
     destruct r as [sig env' s'|f s'|]; cbn [post] in *; [| |exact Logic.I].
     - destruct H as [Hd' H]. split; [eapply same_tl_trans; eassumption|].
       destruct sig as [| | |rv]; [| | |exact H].
@@ -739,7 +771,7 @@ Section Sim.
       + destruct H as (m & a' & g' & Hsl & R & Hip & HR & Ha & Hf). exists m, a', g'. split; [exact Hsl|].
         split; [eapply xrun_trans; eassumption|]. split; [exact Hip|]. split; [exact HR|].
         split; [eapply act_same_trans; eassumption|exact Hf].
-    - destruct H as (e & g' & Hf & Hr & Ho). exists e, g'. split; [eapply xrun_fail; eassumption|]. auto.
+    - eapply fail_post_map; [|exact H]. intros (e & g' & Hf & Hr & Ho). exists e, g'. split; [eapply xrun_fail; eassumption|]. auto.
   Qed.
 
   Lemma skipn_tl_eq : forall A m (l1 l2 : list A), 1 <= m -> tl l1 = tl l2 -> skipn m l1 = skipn m l2.
@@ -748,11 +780,11 @@ Section Sim.
   Qed.
 
   (* the reference frames may be replaced by any list with the same tail (break / continue pop >= 1 frame) *)
-  Lemma post_rebase : forall sl bt ct fin B' env fs1 fs0 a g r,
-    post sl bt ct fin B' env fs1 a g r -> tl fs1 = tl fs0 -> (forall m, sl = Some m -> 1 <= m) ->
-    post sl bt ct fin B' env fs0 a g r.
+  Lemma post_rebase : forall pins sl bt ct fin B' env fs1 fs0 a g r,
+    post pins sl bt ct fin B' env fs1 a g r -> tl fs1 = tl fs0 -> (forall m, sl = Some m -> 1 <= m) ->
+    post pins sl bt ct fin B' env fs0 a g r.
   Proof.
-    intros sl bt ct fin B' env fs1 fs0 a g r H Htl Hm.
+    intros pins sl bt ct fin B' env fs1 fs0 a g r H Htl Hm.
     destruct r as [sig env' s'|f s'|]; cbn [post] in *; [|exact H|exact Logic.I].
     destruct H as [Hd H]. split; [exact Hd|].
     destruct sig as [| | |rv]; [| | |exact H].
@@ -777,7 +809,7 @@ Section Sim.
 
   Lemma block_of_stmts : forall l, Forall stmt_spec l -> block_spec l.
   Proof.
-    induction l as [|st l IH]; intros HF il sl bt ct fuel k a g env s B Hok Hb Hit Hend Hlc Hip HR.
+    induction l as [|st l IH]; intros HF pins lr il sl bt ct fuel k a g env s B Hok Hb Hit Hend Hlc Hip HR.
     - destruct fuel as [|fuel]; [exact Logic.I|]. rewrite exec_block_nil. cbn [bitems length post after_l].
       split; [apply same_tl_refl; exact (Rg_ne _ _ _ (proj1 HR))|]. split; [exact Hb|]. exists a, g.
       split; [apply xrun_refl|]. split; [lia|]. split; [exact HR|]. split; [apply act_same_refl|reflexivity].
@@ -785,13 +817,13 @@ Section Sim.
       destruct fuel as [|fuel]; [exact Logic.I|]. rewrite exec_block_cons.
       cbn [ok_block] in Hok. apply Bool.andb_true_iff in Hok as [Hok1 Hok2].
       cbn [bitems] in *. rewrite app_length in *. apply items_at_app in Hit as [Hit1 Hit2].
-      pose proof (Hst il sl bt ct fuel k a g env s B Hok1 Hb Hit1 ltac:(lia)
-                      (lc_ok_mono il sl bt ct env env _ (k + length (sitems c sl st)) Hlc ltac:(lia) eq_refl) Hip HR) as H1.
+      pose proof (Hst pins lr il sl bt ct fuel k a g env s B Hok1 Hb Hit1 ltac:(lia)
+                      (lc_ok_mono il sl bt ct env env _ (k + length (sitems c lr sl st)) Hlc ltac:(lia) eq_refl) Hip HR) as H1.
       destruct (Eval.exec fuel env st s) as [sig env1 s1|f s1|]; [|exact H1|exact Logic.I].
       destruct sig as [| | |rv].
       + cbn [post] in H1. destruct H1 as (Hd & HB1 & a1 & g1 & R1 & Hip1 & HR1 & Ha1 & Hf1).
-        pose proof (IH il sl bt ct fuel (k + length (sitems c sl st)) a1 g1 env1 s1 (after B st) Hok2 HB1 Hit2 ltac:(lia)
-                       (lc_ok_mono il sl bt ct env env1 _ (k + length (sitems c sl st) + length (bitems c sl l)) Hlc ltac:(lia) (same_tl_length _ _ (Rg_ne _ _ _ (proj1 HR)) Hd)) Hip1 HR1) as H2.
+        pose proof (IH pins lr il sl bt ct fuel (k + length (sitems c lr sl st)) a1 g1 env1 s1 (after B st) Hok2 HB1 Hit2 ltac:(lia)
+                       (lc_ok_mono il sl bt ct env env1 _ (k + length (sitems c lr sl st) + length (bitems c lr sl l)) Hlc ltac:(lia) (same_tl_length _ _ (Rg_ne _ _ _ (proj1 HR)) Hd)) Hip1 HR1) as H2.
         rewrite Nat.add_assoc.
         eapply post_seq; [exact R1|exact Hd|exact Ha1|].
         eapply post_rebase; [exact H2|exact Hf1|exact (lc_ok_m _ _ _ _ _ _ Hlc)].
@@ -814,14 +846,14 @@ Section Sim.
   Proof. reflexivity. Qed.
 
   (* after a normal completion at fin1 the machine runs on to fin2 (e.g. the `jmp` over the else branch) *)
-  Lemma post_extend : forall sl bt ct fin1 fin2 B' env fs0 a g r,
-    post sl bt ct fin1 B' env fs0 a g r ->
-    (forall env' s' a' g', a_ip a' = fin1 -> Rst env' s' a' g' ->
-       exists a'' g'', xrun name code a' g' a'' g'' /\ a_ip a'' = fin2 /\ Rst env' s' a'' g'' /\ act_same a' a'' /\
+  Lemma post_extend : forall pins sl bt ct fin1 fin2 B' env fs0 a g r,
+    post pins sl bt ct fin1 B' env fs0 a g r ->
+    (forall env' s' a' g', a_ip a' = fin1 -> Rst pins env' s' a' g' ->
+       exists a'' g'', xrun name code a' g' a'' g'' /\ a_ip a'' = fin2 /\ Rst pins env' s' a'' g'' /\ act_same a' a'' /\
                        frames g'' = frames g') ->
-    post sl bt ct fin2 B' env fs0 a g r.
+    post pins sl bt ct fin2 B' env fs0 a g r.
   Proof.
-    intros sl bt ct fin1 fin2 B' env fs0 a g r H Hx.
+    intros pins sl bt ct fin1 fin2 B' env fs0 a g r H Hx.
     destruct r as [sig env' s'|f s'|]; cbn [post] in *; [|exact H|exact Logic.I].
     destruct H as [Hd H]. split; [exact Hd|]. destruct sig; try exact H.
     destruct H as (HB & a' & g' & R & Hip & HR & Ha & Hf). split; [exact HB|].
@@ -832,22 +864,22 @@ Section Sim.
 
   (* the machine has just pushed the block frame (if_stmt / else_stmt); body, then `done` *)
   Lemma in_block_run : forall body, block_spec body ->
-    forall il sl bt ct fuel kb a g env s B lb,
+    forall pins lr il sl bt ct fuel kb a g env s B lb,
       ok_block il B body = true -> bound_in B env ->
-      items_at bt ct kb (bitems c (option_map S sl) body ++ [I OP_DONE []]) ->
-      kb + length (bitems c (option_map S sl) body) + 1 < length code ->
-      lc_ok il sl bt ct env (kb + length (bitems c (option_map S sl) body) + 1) ->
-      a_ip a = kb -> Rst env s a g -> special lb = true ->
-      post sl bt ct (kb + length (bitems c (option_map S sl) body) + 1) B env (frames g)
+      items_at bt ct kb (bitems c lr (option_map S sl) body ++ [I OP_DONE []]) ->
+      kb + length (bitems c lr (option_map S sl) body) + 1 < length code ->
+      lc_ok il sl bt ct env (kb + length (bitems c lr (option_map S sl) body) + 1) ->
+      a_ip a = kb -> Rst pins env s a g -> special lb = true ->
+      post pins sl bt ct (kb + length (bitems c lr (option_map S sl) body) + 1) B env (frames g)
            (set_ss a (S (a_ss a))) (push_frame g lb) (in_block_ fuel body env s).
   Proof.
-    intros body Hbody il sl bt ct fuel kb a g env s B lb Hok Hb Hit Hend Hlc Hip HR Hlb.
-    set (len := length (bitems c (option_map S sl) body)) in *.
+    intros body Hbody pins lr il sl bt ct fuel kb a g env s B lb Hok Hb Hit Hend Hlc Hip HR Hlb.
+    set (len := length (bitems c lr (option_map S sl) body)) in *.
     apply items_at_app in Hit as [Hitb Hid]. apply items_at_cons in Hid as [Hid _]. cbn [item_instr] in Hid. fold len in Hid.
     destruct HR as (HG & Hops & Hss).
     assert (Hl1 : 1 <= length (locals env)).
     { destruct (Rfr_ne _ _ _ _ (Rg_fr _ _ _ HG)) as [Hne _]. destruct (locals env); [congruence|cbn [length]; lia]. }
-    assert (HR0 : Rst (push_scope env) s (set_ss a (S (a_ss a))) (push_frame g lb)).
+    assert (HR0 : Rst pins (push_scope env) s (set_ss a (S (a_ss a))) (push_frame g lb)).
     { split; [apply push_rel; assumption|]. split; [exact Hops|]. cbn [push_scope locals length set_ss a_ss]. lia. }
     assert (Hlc0 : lc_ok il (option_map S sl) bt ct (push_scope env) (kb + len)).
     { destruct Hlc as [H0 H1]. split.
@@ -855,7 +887,7 @@ Section Sim.
       - intros m' E. destruct sl as [m|]; [|discriminate]. cbn [option_map] in E. inversion E; subst m'.
         destruct (H1 m eq_refl) as (A1 & A2 & A3 & A4 & A5 & A6). cbn [push_scope locals length].
         repeat split; try assumption; lia. }
-    pose proof (Hbody il (option_map S sl) bt ct fuel kb (set_ss a (S (a_ss a))) (push_frame g lb) (push_scope env) s B
+    pose proof (Hbody pins lr il (option_map S sl) bt ct fuel kb (set_ss a (S (a_ss a))) (push_frame g lb) (push_scope env) s B
                   Hok Hb Hitb ltac:(fold len; lia) Hlc0 Hip HR0) as H.
     fold len in H. unfold in_block_.
     destruct (exec_block fuel (push_scope env) body s) as [sig env2 s2|f s2|]; [|exact H|exact Logic.I].
@@ -901,16 +933,16 @@ Section Sim.
 
   Lemma if_correct : forall cnd body, block_spec body -> stmt_spec (SIf cnd body).
   Proof.
-    intros cnd body Hbody il sl bt ct fuel k a g env s B Hok Hb Hit Hend Hlc Hip HR.
+    intros cnd body Hbody pins lr il sl bt ct fuel k a g env s B Hok Hb Hit Hend Hlc Hip HR.
     destruct fuel as [|fuel]; [exact Logic.I|].
     rewrite ok_SIf in Hok. apply Bool.andb_true_iff in Hok as [Hoe Hokb].
     rewrite sitems_SIf in *. cbv zeta in *.
-    set (bi := bitems c (option_map S sl) body) in *.
+    set (bi := bitems c lr (option_map S sl) body) in *.
     rewrite !app_length, map_length in *. cbn [length] in *.
     apply items_at_app in Hit as [Hce Hi]. apply items_at_CI in Hce. rewrite map_length in Hi.
     apply items_at_cons in Hi as [Hi1 Hib]. cbn [item_instr I] in Hi1.
     destruct HR as (HG & Hops & Hss).
-    pose proof (expr_run cnd c fuel k a g env s B Hoe Hb ltac:(lia) Hce ltac:(lia) Hip Hops HG) as He.
+    pose proof (expr_run pins cnd c fuel k a g env s B Hoe Hb ltac:(lia) Hce ltac:(lia) Hip Hops HG) as He.
     rewrite exec_SIf. cbn [after].
     destruct (eval fuel env cnd s) as [v s1|s1|f s1|]; [|contradiction| |exact Logic.I].
     2:{ destruct He as (-> & e0 & g' & Hf & Hr & Ho). eapply post_expr_fail; eassumption. }
@@ -921,10 +953,10 @@ Section Sim.
     set (i1 := mkI OP_IF_STMT [sN off]) in *.
     assert (Hdec : decode i1 = DOk (DIf (Z.of_nat off))) by (apply dec_if; apply small_code; unfold off; lia).
     set (g1t := trc name a1 g1 i1).
-    assert (HG1t : Rg env s g1t) by (apply Rg_trc; exact HG1).
-    assert (Hnb : (forall b, v <> RBool b) -> post sl bt ct (k + (length (pcode c cnd) + (1 + (length bi + 1)))) B env (frames g) a g
+    assert (HG1t : Rg pins env s g1t) by (apply Rg_trc; exact HG1).
+    assert (Hnb : (forall b, v <> RBool b) -> post pins sl bt ct (k + (length (pcode c cnd) + (1 + (length bi + 1)))) B env (frames g) a g
                                                    (SFailed (FType 12) s)).
-    { intros Hv. cbn [post]. exists E_not_bool, g1t. split; [|split; [cbn; auto|exact (Rg_out _ _ _ HG1)]].
+    { intros Hv. cbn [post]. apply fail_post_intro. exists E_not_bool, g1t. split; [|split; [cbn; auto|exact (Rg_out _ _ _ HG1)]].
       eapply xrun_fail; [exact R1|]. eapply xstep_fail; [reflexivity|exact Hi1|exact Hdec|].
       apply (exec_if_nb _ a1 g1t (inj v)); [reflexivity|now apply not_bool_inj]. }
     destruct v as [z|b|t| |p bd ev]; try (apply Hnb; intros b0; discriminate).
@@ -932,10 +964,10 @@ Section Sim.
     destruct b.
     - (* true: push <if>, run the body, done *)
       set (a1' := upd a (S k1) []).
-      assert (Hblk : post sl bt ct (k + (length (pcode c cnd) + (1 + (length bi + 1)))) B env (frames g1t)
+      assert (Hblk : post pins sl bt ct (k + (length (pcode c cnd) + (1 + (length bi + 1)))) B env (frames g1t)
                           (set_ss a1' (S (a_ss a1'))) (push_frame g1t LIf) (in_block_ fuel body env s)).
       { replace (k + (length (pcode c cnd) + (1 + (length bi + 1)))) with (S k1 + length bi + 1) by (unfold k1; lia).
-        apply (in_block_run body Hbody il sl bt ct fuel (S k1) a1' g1t env s B LIf); try assumption; try reflexivity.
+        apply (in_block_run body Hbody pins lr il sl bt ct fuel (S k1) a1' g1t env s B LIf); try assumption; try reflexivity.
         - fold bi. unfold k1. lia.
         - fold bi. eapply lc_ok_mono; [exact Hlc|unfold k1; lia|reflexivity].
         - apply Rst_upd; assumption. }
@@ -958,12 +990,12 @@ Section Sim.
 
   Lemma ifelse_correct : forall cnd body els, block_spec body -> block_spec els -> stmt_spec (SIfElse cnd body els).
   Proof.
-    intros cnd body els Hbody Hels il sl bt ct fuel k a g env s B Hok Hb Hit Hend Hlc Hip HR.
+    intros cnd body els Hbody Hels pins lr il sl bt ct fuel k a g env s B Hok Hb Hit Hend Hlc Hip HR.
     destruct fuel as [|fuel]; [exact Logic.I|].
     rewrite ok_SIfElse in Hok. rewrite !Bool.andb_true_iff in Hok. destruct Hok as [[Hoe Hokb] Hoke].
     rewrite sitems_SIfElse in *. cbv zeta in *.
-    set (bi := bitems c (option_map S sl) body) in *.
-    set (ei := bitems c (option_map S sl) els) in *.
+    set (bi := bitems c lr (option_map S sl) body) in *.
+    set (ei := bitems c lr (option_map S sl) els) in *.
     cbn [length] in *. rewrite !app_length, map_length in *. cbn [length] in *. rewrite !app_length in *. cbn [length] in *.
     apply items_at_app in Hit as [Hce Hi]. apply items_at_CI in Hce. rewrite map_length in Hi.
     apply items_at_cons in Hi as [Hi1 Hi]. cbn [item_instr I] in Hi1.
@@ -971,7 +1003,7 @@ Section Sim.
     apply items_at_cons in Hi as [Hi2 Hi]. cbn [item_instr I] in Hi2.
     apply items_at_cons in Hi as [Hi3 Hie]. cbn [item_instr I] in Hi3.
     destruct HR as (HG & Hops & Hss).
-    pose proof (expr_run cnd c fuel k a g env s B Hoe Hb ltac:(lia) Hce ltac:(lia) Hip Hops HG) as He.
+    pose proof (expr_run pins cnd c fuel k a g env s B Hoe Hb ltac:(lia) Hce ltac:(lia) Hip Hops HG) as He.
     rewrite exec_SIfElse. cbn [after].
     destruct (eval fuel env cnd s) as [v s1|s1|f s1|]; [|contradiction| |exact Logic.I].
     2:{ destruct He as (-> & e0 & g' & Hf & Hr & Ho). eapply post_expr_fail; eassumption. }
@@ -986,9 +1018,9 @@ Section Sim.
     assert (Hfin : fin = S (S kj) + length ei + 1) by (unfold fin, kj, k1; lia).
     assert (Hdec : decode i1 = DOk (DIf (Z.of_nat off))) by (apply dec_if; apply small_code; unfold off; lia).
     set (g1t := trc name a1 g1 i1).
-    assert (HG1t : Rg env s g1t) by (apply Rg_trc; exact HG1).
-    assert (Hnb : (forall b, v <> RBool b) -> post sl bt ct fin B env (frames g) a g (SFailed (FType 12) s)).
-    { intros Hv. cbn [post]. exists E_not_bool, g1t. split; [|split; [cbn; auto|exact (Rg_out _ _ _ HG1)]].
+    assert (HG1t : Rg pins env s g1t) by (apply Rg_trc; exact HG1).
+    assert (Hnb : (forall b, v <> RBool b) -> post pins sl bt ct fin B env (frames g) a g (SFailed (FType 12) s)).
+    { intros Hv. cbn [post]. apply fail_post_intro. exists E_not_bool, g1t. split; [|split; [cbn; auto|exact (Rg_out _ _ _ HG1)]].
       eapply xrun_fail; [exact R1|]. eapply xstep_fail; [reflexivity|exact Hi1|exact Hdec|].
       apply (exec_if_nb _ a1 g1t (inj v)); [reflexivity|now apply not_bool_inj]. }
     destruct v as [z|b|t| |p bd ev]; try (apply Hnb; intros b0; discriminate).
@@ -996,9 +1028,9 @@ Section Sim.
     destruct b.
     - (* true: push <if>, body, done, jmp over the else branch *)
       set (a1' := upd a (S k1) []).
-      assert (Hblk : post sl bt ct kj B env (frames g1t) (set_ss a1' (S (a_ss a1'))) (push_frame g1t LIf) (in_block_ fuel body env s)).
+      assert (Hblk : post pins sl bt ct kj B env (frames g1t) (set_ss a1' (S (a_ss a1'))) (push_frame g1t LIf) (in_block_ fuel body env s)).
       { replace kj with (S k1 + length bi + 1) by (unfold kj; lia).
-        apply (in_block_run body Hbody il sl bt ct fuel (S k1) a1' g1t env s B LIf); try assumption; try reflexivity.
+        apply (in_block_run body Hbody pins lr il sl bt ct fuel (S k1) a1' g1t env s B LIf); try assumption; try reflexivity.
         - fold bi. unfold fin, k1 in *. lia.
         - fold bi. eapply lc_ok_mono; [exact Hlc|unfold k1; lia|reflexivity].
         - apply Rst_upd; assumption. }
@@ -1023,9 +1055,9 @@ Section Sim.
       set (ie := mkI OP_ELSE_STMT []) in *.
       set (g2t := trc name a2 g1t ie).
       set (a2' := upd a (S ke) []).
-      assert (Hblk : post sl bt ct fin B env (frames g2t) (set_ss a2' (S (a_ss a2'))) (push_frame g2t LElse) (in_block_ fuel els env s)).
+      assert (Hblk : post pins sl bt ct fin B env (frames g2t) (set_ss a2' (S (a_ss a2'))) (push_frame g2t LElse) (in_block_ fuel els env s)).
       { rewrite Hfin. fold ke.
-        apply (in_block_run els Hels il sl bt ct fuel (S ke) a2' g2t env s B LElse); try assumption; try reflexivity.
+        apply (in_block_run els Hels pins lr il sl bt ct fuel (S ke) a2' g2t env s B LElse); try assumption; try reflexivity.
         - fold ei. unfold ke. lia.
         - fold ei. eapply lc_ok_mono; [exact Hlc|unfold ke; lia|reflexivity].
         - apply Rst_upd; [|exact Hss]. apply Rg_trc. exact HG1t. }
@@ -1044,13 +1076,13 @@ Section Sim.
     intros cnd body nxt Hbody Hn.
     assert (Hels : block_spec [nxt]) by (apply block_of_stmts; constructor; [exact Hn|constructor]).
     pose proof (ifelse_correct cnd body [nxt] Hbody Hels) as H.
-    intros il sl bt ct fuel k a g env s B Hok Hb Hit Hend Hlc Hip HR.
-    assert (Es : sitems c sl (SIfElif cnd body nxt) = sitems c sl (SIfElse cnd body [nxt])).
+    intros pins lr il sl bt ct fuel k a g env s B Hok Hb Hit Hend Hlc Hip HR.
+    assert (Es : sitems c lr sl (SIfElif cnd body nxt) = sitems c lr sl (SIfElse cnd body [nxt])).
     { rewrite sitems_SIfElif, sitems_SIfElse. cbv zeta. cbn [bitems]. rewrite app_nil_r. reflexivity. }
     assert (Ee : Eval.exec fuel env (SIfElif cnd body nxt) s = Eval.exec fuel env (SIfElse cnd body [nxt]) s).
     { destruct fuel; [reflexivity|]. rewrite exec_SIfElif, exec_SIfElse. reflexivity. }
     rewrite Es in *. rewrite Ee.
-    apply (H il sl bt ct fuel k a g env s B); try assumption.
+    apply (H pins lr il sl bt ct fuel k a g env s B); try assumption.
     rewrite ok_SIfElif in Hok. rewrite ok_SIfElse. cbn [ok_block]. rewrite Bool.andb_true_r. exact Hok.
   Qed.
 
@@ -1069,13 +1101,13 @@ Section Sim.
   Proof. intros [l cap cu]. reflexivity. Qed.
 
   (* the back edge: jmp_pop -(..) at kj pops the <while> frame and returns to the condition at k *)
-  Lemma back_edge : forall kj n k env2 s2 a2 g2,
+  Lemma back_edge : forall pins kj n k env2 s2 a2 g2,
     nth_error code kj = Some (mkI OP_JMP_POP [neg_off n]) -> n <= length code -> kj < length code -> kj = k + n ->
-    a_ip a2 = kj -> Rst env2 s2 a2 g2 -> 2 <= length (locals env2) ->
-    exists g3, xrun name code a2 g2 (set_ip a2 k) g3 /\ Rst (pop_scope env2) s2 (set_ip a2 k) g3 /\
+    a_ip a2 = kj -> Rst pins env2 s2 a2 g2 -> 2 <= length (locals env2) ->
+    exists g3, xrun name code a2 g2 (set_ip a2 k) g3 /\ Rst pins (pop_scope env2) s2 (set_ip a2 k) g3 /\
                frames g3 = tl (frames g2).
   Proof.
-    intros kj n k env2 s2 a2 g2 Hi Hn Hkj Hk Hip (HG & Hops & Hss) Hlen.
+    intros pins kj n k env2 s2 a2 g2 Hi Hn Hkj Hk Hip (HG & Hops & Hss) Hlen.
     set (i1 := mkI OP_JMP_POP [neg_off n]) in *.
     destruct (popn_rel 1 env2 s2 (trc name a2 g2 i1) (Rg_trc _ _ _ _ _ _ HG) ltac:(lia)) as (g3 & Hpop & HG3 & Hf3 & _).
     rewrite popn_1 in HG3. exists g3. split; [|split].
@@ -1089,10 +1121,10 @@ Section Sim.
 
   Lemma while_correct : forall cnd body, block_spec body -> stmt_spec (SWhile cnd body).
   Proof.
-    intros cnd body Hbody il sl bt ct fuel k a g env s B Hok Hb Hit Hend Hlc Hip HR.
+    intros cnd body Hbody pins lr il sl bt ct fuel k a g env s B Hok Hb Hit Hend Hlc Hip HR.
     rewrite ok_SWhile in Hok. apply Bool.andb_true_iff in Hok as [Hoe Hokb].
     rewrite sitems_SWhile in *. cbv zeta in *.
-    set (cb0 := bitems c (Some 1) body) in *.
+    set (cb0 := bitems c lr (Some 1) body) in *.
     rewrite !app_length, resolve_length, !app_length, map_length in *. cbn [length] in *.
     apply items_at_app in Hit as [Hce Hi]. apply items_at_CI in Hce. rewrite map_length in Hi.
     apply items_at_cons in Hi as [Hi1 Hi]. cbn [item_instr I] in Hi1.
@@ -1112,13 +1144,13 @@ Section Sim.
     { destruct HR as (HG & _). destruct (Rfr_ne _ _ _ _ (Rg_fr _ _ _ HG)) as [Hne _].
       destruct (locals env); [congruence|cbn [length]; lia]. }
     enough (Hloop : forall fs0 fuel a g env s, bound_in B env -> lc_ok il sl bt ct env fin -> a_ip a = k ->
-              Rst env s a g -> 1 <= length (locals env) -> tl (frames g) = tl fs0 ->
-              post sl bt ct fin B env fs0 a g (Eval.exec fuel env (SWhile cnd body) s))
+              Rst pins env s a g -> 1 <= length (locals env) -> tl (frames g) = tl fs0 ->
+              post pins sl bt ct fin B env fs0 a g (Eval.exec fuel env (SWhile cnd body) s))
       by (apply Hloop; auto).
     clear a g env s Hb Hlc Hip HR Hl1 fuel. intros fs0.
     induction fuel as [|fuel IH]; intros a g env s Hb Hlc Hip HR Hl1 Hfs; [exact Logic.I|].
     destruct HR as (HG & Hops & Hss).
-    pose proof (expr_run cnd c fuel k a g env s B Hoe Hb ltac:(lia) Hce ltac:(lia) Hip Hops HG) as He.
+    pose proof (expr_run pins cnd c fuel k a g env s B Hoe Hb ltac:(lia) Hce ltac:(lia) Hip Hops HG) as He.
     rewrite exec_SWhile.
     destruct (eval fuel env cnd s) as [v s1|s1|f s1|]; [|contradiction| |exact Logic.I].
     2:{ destruct He as (-> & e0 & g' & Hf & Hr & Ho). eapply post_expr_fail; eassumption. }
@@ -1126,9 +1158,9 @@ Section Sim.
     fold k1 in R1.
     set (a1 := upd a k1 [inj v]) in *.
     set (g1t := trc name a1 g1 i1).
-    assert (HG1t : Rg env s g1t) by (apply Rg_trc; exact HG1).
-    assert (Hnb : (forall b, v <> RBool b) -> post sl bt ct fin B env fs0 a g (SFailed (FType 12) s)).
-    { intros Hv. cbn [post]. exists E_not_bool, g1t. split; [|split; [cbn; auto|exact (Rg_out _ _ _ HG1)]].
+    assert (HG1t : Rg pins env s g1t) by (apply Rg_trc; exact HG1).
+    assert (Hnb : (forall b, v <> RBool b) -> post pins sl bt ct fin B env fs0 a g (SFailed (FType 12) s)).
+    { intros Hv. cbn [post]. apply fail_post_intro. exists E_not_bool, g1t. split; [|split; [cbn; auto|exact (Rg_out _ _ _ HG1)]].
       eapply xrun_fail; [exact R1|]. eapply xstep_fail; [reflexivity|exact Hi1|exact Hdec|].
       apply (exec_while_nb _ a1 g1t (inj v)); [reflexivity|now apply not_bool_inj]. }
     destruct v as [z|b|t| |p bd ev]; try (apply Hnb; intros b0; discriminate).
@@ -1151,18 +1183,18 @@ Section Sim.
     assert (R0 : xrun name code a g a0 g0).
     { eapply xrun_trans; [exact R1|].
       eapply (xstep_push name code a1 g1 i1 _ k1 LWhile (set_ops a1 [])); [reflexivity|exact Hi1|exact Hdec|exact Hx]. }
-    assert (HR0 : Rst (push_scope env) s a0 g0).
+    assert (HR0 : Rst pins (push_scope env) s a0 g0).
     { split; [apply push_rel; [exact HG1t|reflexivity]|]. split; [reflexivity|].
       cbn [push_scope locals length a0 a1' set_ss a_ss upd set_ip set_ops]. lia. }
     assert (Hlc0 : lc_ok true (Some 1) fin kj (push_scope env) (S k1 + length cb0)).
     { split; [discriminate|]. intros m E. inversion E; subst m. cbn [push_scope locals length].
       fold kj. repeat split; try lia. }
-    pose proof (Hbody true (Some 1) fin kj fuel (S k1) a0 g0 (push_scope env) s B Hokb Hb Hib
+    pose proof (Hbody pins lr true (Some 1) fin kj fuel (S k1) a0 g0 (push_scope env) s B Hokb Hb Hib
                   ltac:(fold cb0; lia) Hlc0 eq_refl HR0) as H.
     fold cb0 in H. fold kj in H. unfold in_block_.
     destruct (exec_block fuel (push_scope env) body s) as [sig env2 s2|f s2|]; [| |exact Logic.I].
     2:{ (* the body fails *)
-      cbn [post] in H |- *. destruct H as (e0 & g' & Hf & Hr & Ho). exists e0, g'.
+      cbn [post] in H |- *. eapply fail_post_map; [|exact H]. intros (e0 & g' & Hf & Hr & Ho). exists e0, g'.
       split; [eapply xrun_fail; eassumption|]. auto. }
     cbn [post] in H. destruct H as [Hd H].
     destruct Hd as [Htl Hne2]. cbn [push_scope locals tl] in Htl.
@@ -1170,13 +1202,13 @@ Section Sim.
     { split; cbn [pop_scope locals]; rewrite Htl; [reflexivity|exact (Rg_ne _ _ _ HG)]. }
     assert (Hlen2 : length (locals env2) = S (length (locals env))).
     { destruct (locals env2) as [|sc2 l2]; [congruence|]. cbn [tl] in Htl. subst l2. reflexivity. }
-    assert (Hnext : forall a2 g2, xrun name code a0 g0 a2 g2 -> a_ip a2 = kj -> Rst env2 s2 a2 g2 -> act_same a0 a2 ->
+    assert (Hnext : forall a2 g2, xrun name code a0 g0 a2 g2 -> a_ip a2 = kj -> Rst pins env2 s2 a2 g2 -> act_same a0 a2 ->
               tl (frames g2) = frames g1t ->
-              post sl bt ct fin B env fs0 a g (Eval.exec fuel (pop_scope env2) (SWhile cnd body) s2)).
+              post pins sl bt ct fin B env fs0 a g (Eval.exec fuel (pop_scope env2) (SWhile cnd body) s2)).
     { intros a2 g2 R2 Hip2 HR2 Ha2 Hf2.
-      destruct (back_edge kj (1 + length cb0 + length (pcode c cnd)) k env2 s2 a2 g2 Hi2 ltac:(lia) ltac:(lia)
+      destruct (back_edge pins kj (1 + length cb0 + length (pcode c cnd)) k env2 s2 a2 g2 Hi2 ltac:(lia) ltac:(lia)
                   ltac:(unfold kj, k1; lia) Hip2 HR2 ltac:(lia)) as (g3 & R3 & HR3 & Hf3).
-      eapply (post_seq sl bt ct fin B env fs0 a g (pop_scope env2) (set_ip a2 k) g3);
+      eapply (post_seq pins sl bt ct fin B env fs0 a g (pop_scope env2) (set_ip a2 k) g3);
         [eapply xrun_trans; [exact R0|eapply xrun_trans; [exact R2|exact R3]]|exact Hd'| |].
       - destruct Ha2 as (A1 & A2 & A3). repeat split; assumption.
       - apply IH.
@@ -1201,12 +1233,264 @@ Section Sim.
     - destruct H.
   Qed.
 
+  (* ================================================================ from loops (named, non-colliding counter) *)
+  Section FromIter.
+    Variables (fuel : nat) (incl : bool) (hi : Z) (step : option expr) (cname : str) (collide : bool) (body : list stmt).
+    Fixpoint from_iter (n : nat) (e : fenv) (s : rstate) : sres_ :=
+      match n with O => SFuel | S n =>
+      match lookup_scopes cname (locals e) with
+      | None => SFailed (FUnbound cname) s
+      | Some c =>
+        match sget s c with
+        | Some (RInt i) =>
+          if (if incl then i <=? hi else i <? hi)%Z then
+            match in_block_ fuel body e s with
+            | SOk (SigNormal | SigContinue) e s =>
+              let bump (sv : rvalue) (s : rstate) : sres_ :=
+                match sget s c, sv with
+                | Some (RInt i'), RInt d => if i32_ok (i' + d)%Z then from_iter n e (sset s c (RInt (i' + d)%Z))
+                                            else SFailed FOverflow s
+                | _, _ => SFailed (FType 13) s end in
+              match step with
+              | None => bump (RInt 1) s
+              | Some se => match eval fuel e se s with
+                           | EVal sv s => bump sv s | ENoVal s => SFailed (FType 3) s
+                           | EFail f s => SFailed f s | EFuel => SFuel end
+              end
+            | SOk SigBreak e s => SOk SigNormal (if collide then e else undeclare e cname) s
+            | SOk g e s => SOk g (if collide then e else undeclare e cname) s
+            | r => r end
+          else SOk SigNormal (if collide then e else undeclare e cname) s
+        | _ => SFailed (FType 13) s end
+      end end.
+  End FromIter.
+
+  Lemma exec_SFrom : forall fuel env a b incl step nm collide body s,
+    Eval.exec (S fuel) env (SFrom a b incl step nm collide body) s =
+    match eval fuel env a s with
+    | EVal va s =>
+      match eval fuel env b s with
+      | EVal vb s =>
+        match va, vb with
+        | RInt _, RInt hi =>
+          let cname := match nm with Some x => x | None => [0%N] end in
+          let '(e, s) := (if collide then assign env s cname va else declare env s cname va) in
+          from_iter fuel incl hi step cname collide body fuel e s
+        | _, _ => SFailed (FType 13) s end
+      | ENoVal s => SFailed (FType 3) s | EFail f s => SFailed f s | EFuel => SFuel end
+    | ENoVal s => SFailed (FType 3) s | EFail f s => SFailed f s | EFuel => SFuel end.
+  Proof. reflexivity. Qed.
+
+  (* ---------------------------------------------------------------- assoc lists *)
+  Lemma assoc_del_other : forall A k x (l : list (str * A)), x <> k -> assoc x (assoc_del k l) = assoc x l.
+  Proof.
+    intros A k x l Hne. induction l as [|[k' v'] l IH]; [reflexivity|]. cbn [assoc_del assoc].
+    destruct (str_eqb k' k) eqn:E.
+    - apply str_eqb_iff in E. subst k'. rewrite (str_eqb_neq k x) by congruence. reflexivity.
+    - cbn [assoc]. destruct (str_eqb k' x); [reflexivity|exact IH].
+  Qed.
+  Lemma assoc_set_absent : forall A k (v : A) l, assoc k l = None -> assoc_set k v l = l ++ [(k, v)].
+  Proof.
+    intros A k v. induction l as [|[k' v'] l IH]; intros H; [reflexivity|]. cbn [assoc assoc_set app] in *.
+    destruct (str_eqb k' k); [discriminate|]. now rewrite IH.
+  Qed.
+  Lemma assoc_del_absent : forall A k (l : list (str * A)), assoc k l = None -> assoc_del k l = l.
+  Proof.
+    intros A k. induction l as [|[k' v'] l IH]; intros H; [reflexivity|]. cbn [assoc assoc_del] in *.
+    destruct (str_eqb k' k); [discriminate|]. now rewrite IH.
+  Qed.
+  Lemma assoc_del_set_absent : forall A k (v : A) l, assoc k l = None -> assoc_del k (assoc_set k v l) = l.
+  Proof.
+    intros A k v. induction l as [|[k' v'] l IH]; intros H; cbn [assoc assoc_set assoc_del] in *.
+    - now rewrite str_eqb_refl.
+    - destruct (str_eqb k' k) eqn:E; [discriminate|]. cbn [assoc_del]. rewrite E. now rewrite IH.
+  Qed.
+  Lemma assoc_del_set_comm : forall A x k (v : A) l, x <> k ->
+    assoc_del x (assoc_set k v l) = assoc_set k v (assoc_del x l).
+  Proof.
+    intros A x k v l Hne. induction l as [|[k' v'] l IH]; cbn [assoc_set assoc_del].
+    - rewrite (str_eqb_neq k x) by congruence. reflexivity.
+    - destruct (str_eqb k' k) eqn:E1, (str_eqb k' x) eqn:E2; cbn [assoc_set assoc_del].
+      + apply str_eqb_iff in E1, E2. congruence.
+      + rewrite E1. apply str_eqb_iff in E1. subst k'. rewrite (str_eqb_neq k x) by congruence. reflexivity.
+      + rewrite E2. reflexivity.
+      + rewrite E1, E2. now rewrite IH.
+  Qed.
+
+  Lemma unsnoc_app : forall A (l : list A) z, unsnoc (l ++ [z]) = Some (l, z).
+  Proof.
+    intros A. induction l as [|x l IH]; intros z; [reflexivity|]. cbn [app]. 
+    change (unsnoc (x :: l ++ [z])) with
+      (match l ++ [z] with [] => Some ([], x) | _ :: _ => match unsnoc (l ++ [z]) with Some (i, y) => Some (x :: i, y) | None => None end end).
+    rewrite IH. destruct (l ++ [z]) eqn:E; [destruct l; discriminate|reflexivity].
+  Qed.
+
+  (* ---------------------------------------------------------------- exec_d with a non-empty operand stack below *)
+  Lemma exec_bin_op_gen : forall sym a g o x y, a_ops a = o ++ [x; y] ->
+    exec_d (DBinOp sym) a g = match bin_op_sem sym x y with OV v => SNext (set_ops a [v]) g | OE e => SFail e end.
+  Proof.
+    intros sym a g o x y H. unfold exec_d. rewrite H.
+    replace (o ++ [x; y]) with ((o ++ [x]) ++ [y]) by (now rewrite <- app_assoc).
+    rewrite !unsnoc_app. reflexivity.
+  Qed.
+  Lemma exec_while_gen : forall off a g o b, a_ops a = o ++ [VBool b] ->
+    exec_d (DWhile off) a g = if b then SPush LWhile (set_ops a []) g else SGoto off (set_ops a []) g.
+  Proof. intros off a g o b H. unfold exec_d. rewrite H, unsnoc_app. reflexivity. Qed.
+  Lemma exec_make_int : forall z a g, exec_d (DMakeInt z) a g = SNext (set_ops a (a_ops a ++ [VInt z])) g.
+  Proof. reflexivity. Qed.
+  Lemma dec_delete2 : forall x y, decode (mkI OP_DELETE_NAME_SCOPED [x; y]) = DOk (DDelete [x; y]).
+  Proof. reflexivity. Qed.
+  Lemma exec_delete2 : forall x y a g f fs cx cy, frames g = f :: fs -> x <> y ->
+    assoc x (vars f) = Some cx -> assoc y (vars f) = Some cy ->
+    exec_d (DDelete [x; y]) a g =
+    SNext a (with_frames g ({| lab := lab f; vars := assoc_del y (assoc_del x (vars f)) |} :: fs)).
+  Proof.
+    intros x y a g f fs cx cy Hf Hne Hx Hy. unfold exec_d. rewrite Hf. cbn [delete_names]. rewrite Hx.
+    rewrite assoc_del_other by congruence. rewrite Hy. reflexivity.
+  Qed.
+
+  Lemma items_at_resolve_gen : forall bt ct kb F S l, items_at bt ct kb (resolve F S 0 l) ->
+    items_at (kb + F) (kb + F - S - 1) kb l.
+  Proof.
+    intros bt ct kb F S l H j it Hj. specialize (H j (resolve_item F S j it)).
+    rewrite resolve_nth, Hj in H. specialize (H eq_refl). rewrite H. f_equal.
+    destruct it as [i|n|n]; cbn [resolve_item item_instr I]; [reflexivity| |].
+    - replace (kb + F - (kb + j)) with (F - (0 + j)) by lia. reflexivity.
+    - replace (kb + F - S - 1 - (kb + j)) with (F - S - (0 + j) - 1) by lia. reflexivity.
+  Qed.
+
+  (* ---------------------------------------------------------------- binding a loop register (not a user name) *)
+  Lemma bind_reg_rel : forall pins env s g y w, Rg pins env s g -> ~ uname y ->
+    exists f fs, frames g = f :: fs /\
+      let cn := N.of_nat (length (cells g)) in
+      let g' := {| cells := cells g ++ [w];
+                   frames := {| lab := lab f; vars := assoc_set y cn (vars f) |} :: fs;
+                   out := out g; trace := trace g |} in
+      bind_local g y w = Some g' /\ Rg ((cn, w) :: pins) env s g'.
+  Proof.
+    intros pins [l cap cu] [st ro] [cs fs o tr] y w [Hfr Hb Hc Ho Hbase Hun Hns Hpins] Hy.
+    cbn [locals captured store rout cells frames out trace] in *.
+    destruct fs as [|f fs]; [destruct (Rfr_ne _ _ _ _ Hfr); congruence|].
+    exists f, fs. split; [reflexivity|]. cbv zeta. split; [reflexivity|].
+    set (f' := {| lab := lab f; vars := assoc_set y (N.of_nat (length cs)) (vars f) |}).
+    assert (Hfind : forall x, uname x -> find_in_function x (f' :: fs) = find_in_function x (f :: fs)).
+    { intros x Hx. cbn [find_in_function f' vars lab]. rewrite assoc_set_other; [reflexivity|]. intros ->. contradiction. }
+    constructor; cbn [locals captured store rout cells frames out]; try assumption.
+    - rewrite <- (app_nil_r st). apply Rfr_mono. eapply Rfr_top; [exact Hfr|reflexivity|exact Hfind].
+    - eapply bij_top; eassumption.
+    - destruct l as [|sc l]; [destruct (Rfr_ne _ _ _ _ Hfr); congruence|exact Hbase].
+    - unfold pin_ok in *. cbn [locals frames cells] in *. constructor.
+      + split; cbn [fst snd].
+        * rewrite Nnat.Nat2N.id, nth_error_app2, Nat.sub_diag by lia. reflexivity.
+        * intros c0 Hp. apply (pairs_top l f f' fs _ _ Hfind) in Hp.
+          apply (pairs_cellrel st cs _ _ _ _ Hfr) in Hp. apply cellrel_valid in Hp. lia.
+      + apply pins_mono_. eapply pins_top_; eassumption.
+  Qed.
+
+  (* ---------------------------------------------------------------- the end of a from loop: the counter and the end
+     register leave the innermost scope / the top frame *)
+  Lemma undeclare_rel : forall pins p env s g x sc l f fs vs,
+    Rg (p :: pins) env s g -> locals env = sc :: l -> frames g = f :: fs -> uname x ->
+    (forall y, uname y -> y <> x -> assoc y vs = assoc y (vars f)) -> assoc x vs = None ->
+    assoc x (assoc_del x sc) = None -> lookup_scopes x l = None ->
+    Rg pins (undeclare env x) s (with_frames g ({| lab := lab f; vars := vs |} :: fs)).
+  Proof.
+    intros pins p [l0 cap cu] [st ro] [cs fs0 o tr] x sc l f fs vs [Hfr Hb Hc Ho Hbase Hun Hns Hpins] El Ef Hx Hvs Hxv Hxs Hxl.
+    cbn [locals captured store rout cells frames out trace] in *. subst l0 fs0.
+    unfold undeclare. cbn [locals captured cur with_frames frames cells out].
+    (* lookups of every user name other than x are unchanged on both sides; x is unbound on both sides *)
+    assert (HxR : special (lab f) = true -> find_in_function x fs = None).
+    { intros Hsp. cbn [Rfr] in Hfr. destruct Hfr as [_ Hfr]. destruct l as [|sc' l'].
+      - rewrite Hsp in Hfr. discriminate.
+      - destruct Hfr as [_ Hfr]. pose proof (Rfr_look _ _ _ _ Hfr x Hx) as H. rewrite Hxl in H.
+        destruct (find_in_function x fs); [contradiction|reflexivity]. }
+    assert (Hsrc : forall y, y <> x -> lookup_scopes y (assoc_del x sc :: l) = lookup_scopes y (sc :: l)).
+    { intros y Hne. cbn [lookup_scopes]. now rewrite assoc_del_other. }
+    assert (Hvm : forall y, uname y -> y <> x -> find_in_function y ({| lab := lab f; vars := vs |} :: fs) = find_in_function y (f :: fs)).
+    { intros y Hy Hne. cbn [find_in_function vars lab]. now rewrite Hvs. }
+    assert (Hsx : lookup_scopes x (assoc_del x sc :: l) = None) by (cbn [lookup_scopes]; now rewrite Hxs).
+    assert (Hvx : find_in_function x ({| lab := lab f; vars := vs |} :: fs) = None).
+    { cbn [find_in_function vars lab]. rewrite Hxv. destruct (special (lab f)) eqn:Es; [now apply HxR|reflexivity]. }
+    assert (Hpairs : forall c1 c1', pairs (assoc_del x sc :: l) ({| lab := lab f; vars := vs |} :: fs) c1 c1' -> pairs (sc :: l) (f :: fs) c1 c1').
+    { intros c1 c1' Hp. cbn [pairs] in Hp |- *. destruct Hp as [(y & Hy & E1 & E2)|Hp]; [|right; exact Hp].
+      destruct (list_eq_dec N.eq_dec y x) as [->|Hne]; [congruence|].
+      left. exists y. rewrite <- Hsrc, <- Hvm by assumption. auto. }
+    constructor; cbn [locals captured store rout cells frames out with_frames]; try assumption.
+    - cbn [Rfr] in Hfr |- *. destruct Hfr as [Hl Hrest]. split; [|exact Hrest].
+      intros y Hy. destruct (list_eq_dec N.eq_dec y x) as [->|Hne].
+      + rewrite Hsx, Hvx. exact Logic.I.
+      + rewrite Hsrc, Hvm by assumption. exact (Hl y Hy).
+    - intros c1 c1' c2 c2' H1 H2. exact (Hb _ _ _ _ (Hpairs _ _ H1) (Hpairs _ _ H2)).
+    - intros y Hy. destruct (list_eq_dec N.eq_dec y x) as [->|Hne]; [exact Hx|]. apply Hun. now rewrite <- Hsrc.
+    - cbn [NS] in Hns |- *. destruct Hns as [H1 H2]. split; [|exact H2].
+      intros y Hy. apply H1. destruct (list_eq_dec N.eq_dec y x) as [->|Hne]; [congruence|].
+      now rewrite assoc_del_other in Hy.
+    - unfold pin_ok in *. cbn [locals frames cells] in *. apply Forall_inv_tail in Hpins.
+      eapply Forall_impl; [|exact Hpins]. intros [cy w0] [A1 A2]. split; [exact A1|].
+      intros c0 Hp. exact (A2 c0 (Hpairs _ _ Hp)).
+  Qed.
+
+  Definition step_val (st : option expr) : Z := match st with Some (EInt z) => z | _ => 1%Z end.
+
+  Lemma dec_step_code : forall st, step_ok st = true ->
+    exists i, step_code c st = [CI i] /\ decode i = DOk (DMakeInt (step_val st)).
+  Proof.
+    intros [e|] H; cbn [step_ok] in H.
+    - destruct e; try discriminate. eexists. split; [reflexivity|]. apply dec_make_int. exact H.
+    - eexists. split; reflexivity.
+  Qed.
+
+  Lemma simple_expr_ok : forall B e, simple_expr B e = true -> ok_expr B e = true.
+  Proof.
+    intros B e H. unfold ok_expr. destruct e; try discriminate; cbn [simple_expr pure lits_ok used_e forallb] in *.
+    - now rewrite H.
+    - now rewrite H.
+  Qed.
+
+  Lemma from_correct : forall a0 b incl step x body, block_spec body ->
+    stmt_spec (SFrom a0 b incl step (Some x) false body).
+  Proof.
+    intros a0 b incl step x body Hbody pins lr il sl bt ct fuel k a g env s B Hok Hb Hit Hend Hlc Hip HR.
+    destruct fuel as [|fuel]; [exact Logic.I|].
+    rewrite ok_SFrom in Hok. rewrite !Bool.andb_true_iff in Hok. destruct Hok as [[[[[Hx HxB] Hoa] Hsb] Hst] Hokb].
+    apply src_nameb_ok in Hx. apply Bool.negb_true_iff in HxB.
+    destruct (dec_step_code step Hst) as (istep & Estep & Hdstep).
+    rewrite sitems_SFrom in *. cbv zeta in *. rewrite Estep in *.
+    set (cb0 := bitems c (S lr) (Some 1) body) in *.
+    set (endr := lregn (S lr)) in *.
+    set (la := length (pcode c a0)) in *. set (lb := length (pcode c b)) in *. set (lbd := length cb0) in *.
+    match type of Hend with k + length ?L < _ =>
+      assert (Hlen : length L = la + 1 + lb + 1 + 3 + 1 + (lbd + 3) + 1)
+        by (rewrite !app_length, resolve_length, !app_length, !map_length; cbn [length]; fold la lb lbd; lia)
+    end.
+    rewrite Hlen in *. clear Hlen.
+    apply items_at_app in Hit as [Hca Hit]. apply items_at_CI in Hca. rewrite map_length in Hit. fold la in Hit.
+    apply items_at_cons in Hit as [Hi1 Hit].
+    apply items_at_app in Hit as [Hcb Hit]. apply items_at_CI in Hcb. rewrite map_length in Hit. fold lb in Hit.
+    apply items_at_cons in Hit as [Hi3 Hit]. cbn [app] in Hit.
+    apply items_at_cons in Hit as [Hc1 Hit]. apply items_at_cons in Hit as [Hc2 Hit]. apply items_at_cons in Hit as [Hc3 Hit].
+    apply items_at_cons in Hit as [Hw Hit].
+    apply items_at_app in Hit as [Hres Hdel]. rewrite resolve_length in Hdel.
+    apply items_at_resolve_gen in Hres. apply items_at_app in Hres as [Hfull0 Hj].
+    apply items_at_app in Hfull0 as [Hib Hstp]. fold lbd in Hstp.
+    apply items_at_cons in Hstp as [Hs1 Hstp]. apply items_at_cons in Hstp as [Hs2 _].
+    apply items_at_cons in Hj as [Hj _]. apply items_at_cons in Hdel as [Hdel _].
+    cbn [item_instr I] in Hi1, Hi3, Hc1, Hc2, Hc3, Hw, Hs1, Hs2, Hj, Hdel.
+    repeat rewrite app_length in Hw. repeat rewrite app_length in Hib. repeat rewrite app_length in Hs1.
+    repeat rewrite app_length in Hs2. repeat rewrite app_length in Hj. repeat rewrite app_length in Hdel.
+    cbn [length] in Hw, Hib, Hs1, Hs2, Hj, Hdel.
+    fold lbd in Hw, Hib, Hs1, Hs2, Hj, Hdel.
+    set (k1 := k + la) in *. set (k3 := S k1 + lb) in *. set (kc := S k3) in *.
+    set (kw := kc + 3). set (kb := S kw). set (ks := kb + lbd). set (kj := ks + 2). set (kd := S kj). set (fin := S kd).
+    Show.
+  Abort.
+
   (* ================================================================ all statements, all nesting depths *)
   Theorem stmt_sim : forall st, stmt_spec st.
   Proof.
     apply (stmt_ind' (fun _ => True) stmt_spec); try (intros; exact Logic.I).
     - intros x e _. apply assign_correct.
-    - intros x e _ il sl bt ct fuel k a g env s B Hok. discriminate.
+    - intros x e _ pins lr il sl bt ct fuel k a g env s B Hok. discriminate.
     - intros x o e _. apply opassign_correct.
     - intros e _. apply print_correct.
     - intros e sp _. apply assert_correct.
@@ -1215,10 +1499,10 @@ Section Sim.
     - intros cnd b e _ Hb He. apply ifelse_correct; now apply block_of_stmts.
     - intros cnd b n _ Hb Hn. apply ifelif_correct; [now apply block_of_stmts|exact Hn].
     - intros cnd b _ Hb. apply while_correct. now apply block_of_stmts.
-    - intros a b incl step nm col body _ _ _ _ il sl bt ct fuel k a0 g env s B Hok. discriminate.
+    - intros a b incl step nm col body _ _ _ _ pins lr il sl bt ct fuel k a0 g env s B Hok. discriminate.
     - apply break_correct.
     - apply continue_correct.
-    - intros e _ il sl bt ct fuel k a g env s B Hok. discriminate.
+    - intros e _ pins lr il sl bt ct fuel k a g env s B Hok. discriminate.
   Qed.
 
   Theorem block_sim : forall l, block_spec l.
@@ -1297,16 +1581,16 @@ Section Top.
 Variable path : str.
 
 Theorem cblock_correct : forall l B, ok_block false B l = true ->
-  forall c st name pre post_ a g env s fuel,
+  forall c st pins name pre post_ a g env s fuel,
   let mid := strip (fst (cblockT path c None l st)) in
   let code := pre ++ mid ++ post_ in
   let fin := length pre + length mid in
   post_ <> [] -> small (c + length code + 4) ->
-  a_ip a = length pre -> Rst env s a g -> bound_in B env ->
+  a_ip a = length pre -> Rst pins env s a g -> bound_in B env ->
   match exec_block fuel env l s with
   | SOk SigNormal env' s' => exists n a' g',
         xsteps name code n (Running a g) = Running a' g' /\ a_ip a' = fin /\
-        Rst env' s' a' g' /\ act_same a a' /\ same_tl env env' /\ bound_in (after_l B l) env' /\
+        Rst pins env' s' a' g' /\ act_same a a' /\ same_tl env env' /\ bound_in (after_l B l) env' /\
         tl (frames g') = tl (frames g)
   | SOk _ _ _ => False
   | SFailed f s' => exists n e g',
@@ -1314,11 +1598,11 @@ Theorem cblock_correct : forall l B, ok_block false B l = true ->
   | SFuel => True
   end.
 Proof.
-  intros l B Hok c st name pre post_ a g env s fuel mid code fin Hpost Hsm Hip HR Hb.
+  intros l B Hok c st pins name pre post_ a g env s fuel mid code fin Hpost Hsm Hip HR Hb.
   pose proof (bitems_all_CI c l B None Hok) as HCI.
   assert (Emid : mid = strip (bitems c None l)) by (unfold mid; now rewrite (cblockT_ok path c l false B None st Hok)).
   assert (Elen : length mid = length (bitems c None l)) by (rewrite Emid; now apply strip_CI_length).
-  pose proof (block_sim name code c Hsm l false None 0 0 fuel (length pre) a g env s B Hok Hb) as H.
+  pose proof (block_sim name code c Hsm l pins false None 0 0 fuel (length pre) a g env s B Hok Hb) as H.
   rewrite <- Elen in H. fold fin in H.
   assert (Hit : items_at code 0 0 (length pre) (bitems c None l)).
   { apply items_at_strip; [exact HCI|]. rewrite <- Emid. apply code_at_embed. }
@@ -1336,10 +1620,12 @@ Qed.
 End Top.
 
 End Base.
+Arguments Rg : clear implicits.
+Arguments Rst : clear implicits.
 
 (* ================================================================ whole modules: Eval.run vs Model.execute *)
 Lemma Rst_init : forall name,
-  Rst [] {| locals := [[]]; captured := []; cur := None |} {| store := []; rout := [] |}
+  Rst [] [] {| locals := [[]]; captured := []; cur := None |} {| store := []; rout := [] |}
       (act0 name [] None) (push_frame g0 (LFun name)).
 Proof.
   intros name. split; [|split; [reflexivity|cbn; lia]].
@@ -1348,6 +1634,7 @@ Proof.
   - intros c1 c1' c2 c2' H1. cbn in H1. destruct H1 as [(x & _ & E & _)|[]]. discriminate.
   - intros x Hx. cbn in Hx. congruence.
   - cbn. split; [intros y Hy; congruence|exact Logic.I].
+  - constructor.
 Qed.
 
 Section Program.
@@ -1384,7 +1671,7 @@ Theorem module_correct : forall p, ok_block false [] p = true -> small (length (
 Proof.
   intros p Hok Hsm fuel Hnf.
   set (name := s_module_fn path).
-  pose proof (cblock_correct [] path p [] Hok 0 {| fid := 0; lreg := 0; fbuf := [] |} name [] [ret_mod]
+  pose proof (cblock_correct [] path p [] Hok 0 {| fid := 0; lreg := 0; fbuf := [] |} [] name [] [ret_mod]
                 (act0 name [] None) (push_frame g0 (LFun name))
                 {| locals := [[]]; captured := []; cur := None |} {| store := []; rout := [] |} fuel) as H.
   cbv zeta in H. rewrite (cblockT_ok path 0 p false [] None _ Hok) in H. cbn [fst app length Nat.add] in H.
